@@ -1,4 +1,5 @@
 import PyGam.Proofs.Sampling
+import PyGam.Gen.Decisions
 /-!
 # C17 — posterior simulation draws from the stated sampling distributions
 
@@ -376,5 +377,24 @@ example :
   rw [h]
   simp [c2, c1, r2, r1, g, coefDraws, bootstraps, coefDraw, linkInv, List.range, List.range.loop]
   norm_num
+
+/-! ### tie to the source by translation of the decision logic
+
+`Gen.sample_coef_checks` is the run of `if …: raise …` statements at the head of `GAM._sample_coef`, translated from the
+current source on every run (the unknown-`quantity` check sits in `sample` itself and the data checks are property C11). -/
+
+/-- exception class names as the translator writes them -/
+def errName : SampleErr → String
+  | .valueError => "ValueError" | .attributeError => "AttributeError" | .typeError => "TypeError"
+
+/-- the argument checks of the source are the model's `validateSample` for a known quantity and valid data: same
+verdict, same exception class, same order (unfitted before `n_bootstraps` before `n_draws`) -/
+theorem gen_decision_sample_checks (q : Quantity) (fitted : Bool) (nBoot nDraws : Int) :
+    Gen.sample_coef_checks fitted nDraws nBoot
+      = match validateSample (some q) fitted nBoot nDraws true with
+        | none => .ok nDraws
+        | some e => .error (errName e) := by
+  unfold Gen.sample_coef_checks validateSample
+  cases fitted <;> by_cases hb : nBoot < 1 <;> by_cases hd : nDraws < 1 <;> simp [hb, hd, errName]
 
 end PyGam.C17
